@@ -136,10 +136,6 @@ def parsePresented (n : Names) (s : String) : Presented :=
 def parseHint : String → Hint
   | "" => .none | "access_token" => .access | "refresh_token" => .refresh | _ => .other
 
-def kv (fs : List String) (k : String) : String :=
-  match fs.find? (fun f => f.startsWith (k ++ "=")) with
-  | some f => (f.drop (k.length + 1)).toString
-  | none => ""
 
 def parseCfg (fs : List String) : Config :=
   { refreshScopes := decList (kv fs "refreshScopes"),
